@@ -384,6 +384,13 @@ fn text_for(kind: usize, src: &[MQ], fault: Option<usize>) -> String {
                     stmt.push_str(&format!(" ; {} {}", nt_term(&src[j].p), nt_term(&src[j].o)));
                     j += 1;
                 }
+                if j < src.len() && Some(j) == fault && j - i < 3 {
+                    // the syntax error sits *inside* the grouped statement: the parser delivers
+                    // the triples before it and fails within the same parse step
+                    out.push_str(&format!("{stmt} ; <http://x/bad> .\n"));
+                    i = j + 1;
+                    continue;
+                }
                 out.push_str(&format!("{stmt} .\n"));
                 i = j;
                 continue;
@@ -1323,7 +1330,7 @@ impl Check for C15 {
         };
         let fault_line = if (2..=6).contains(&kind) && src_fault.is_some() {
             let text = text_for(kind, &src, src_fault);
-            text.find(BAD_LINE).map(|off| text[..off].matches('\n').count() + 1)
+            text.find("<http://x/bad>").map(|off| text[..off].matches('\n').count() + 1)
         } else {
             None
         };
